@@ -19,14 +19,17 @@ class IndexOutOfArray(Exception):
     pass
 
 
-def _bc(a, idx, line):
+def _bc(a, idx, line, literal_negative=()):
     if isinstance(a, numpy.ndarray):
         comps = idx if isinstance(idx, tuple) else (idx,)
         if any(c is Ellipsis or c is None for c in comps):
             return idx
         d = 0
-        for c in comps:
+        for q, c in enumerate(comps):
             if isinstance(c, (int, numpy.integer)) and not isinstance(c, (bool, numpy.bool_)):
+                if q in literal_negative and -a.shape[d] <= int(c) < 0:
+                    d += 1
+                    continue       # a literal negative subscript: the deliberate "from the end" idiom
                 if d < a.ndim and not (0 <= int(c) < a.shape[d]):
                     raise IndexOutOfArray("line %d: index %d on axis %d of an array of shape %s%s" % (
                         line, int(c), d, tuple(a.shape), ' (numba wraps it to the other end)' if -a.shape[d] <= int(c) < 0 else ' (outside the array: numba reads / writes foreign memory)'))
@@ -44,7 +47,11 @@ class _Rewrite(ast.NodeTransformer):
             for n in ast.walk(val):
                 if hasattr(n, 'ctx'):
                     n.ctx = ast.Load()
-            node.slice = ast.Call(func=ast.Name(id='__bc', ctx=ast.Load()), args=[val, node.slice, ast.Constant(getattr(node, 'lineno', 0) + _Rewrite.offset)], keywords=[])
+            comps = node.slice.elts if isinstance(node.slice, ast.Tuple) else [node.slice]
+            lits = [q for q, c in enumerate(comps) if isinstance(c, ast.UnaryOp) and isinstance(c.op, ast.USub) and isinstance(c.operand, ast.Constant)
+                    and isinstance(c.operand.value, int)]
+            node.slice = ast.Call(func=ast.Name(id='__bc', ctx=ast.Load()),
+                                  args=[val, node.slice, ast.Constant(getattr(node, 'lineno', 0) + _Rewrite.offset), ast.Tuple(elts=[ast.Constant(q) for q in lits], ctx=ast.Load())], keywords=[])
         return node
 
 
